@@ -58,25 +58,42 @@ theorem vmReset_page_fresh (s : VmSt) (cfg : Cfg)
       simp [hc, Sizer.reset, hsz]
     · simp [freshPage, hc] at hsz
 
-/-- **Every resume after HALT clears the page**: mappings, sink, extra text, cursors, sink symbol,
-menu items and — since the `fix:` commit — the error prefix. -/
-theorem resume_clears_page (pg : Page) :
-    ({ pg.reset with err := none } : Page).cacheMap = [] ∧ ({ pg.reset with err := none } : Page).sink = none ∧
-    ({ pg.reset with err := none } : Page).err = none ∧ ({ pg.reset with err := none } : Page).extra = [] ∧
-    ({ pg.reset with err := none } : Page).menu.items = [] ∧
-    ({ pg.reset with err := none } : Page).menu.sink = false ∧
-    ({ pg.reset with err := none } : Page).sizer = pg.sizer.map (fun sz => { outputSize := sz.outputSize }) := by
-  refine ⟨rfl, rfl, rfl, rfl, ?_, ?_, ?_⟩
-  · simp [Page.reset, Menu.reset, Menu.rearm]
-  · simp [Page.reset, Menu.reset, Menu.rearm]
-  · simp only [Page.reset]
-    cases pg.sizer <;> simp [Sizer.reset]
+/-- **Every resume after HALT re-creates the renderer** (`fix:` commits 0861976 and 946bec9): mappings, sink,
+extra template text, cursors, sink symbol, the error prefix and the whole menu - items, sink flag, browse
+configuration, page count - are those of an engine created for the request. Before 946bec9 the menu object
+survived with its browse configuration and page count, and code that rendered again after a HALT without a
+move in between paginated differently in a long-lived engine. -/
+theorem resume_page_fresh (s : VmSt) (cfg : Cfg)
+    (hsep : s.sep = (if cfg.menuSep.isEmpty then [0x3a] else cfg.menuSep))
+    (hsz : s.pg.sizer.map (·.outputSize) = (freshPage cfg).sizer.map (·.outputSize)) :
+    (resumeReset s).pg = freshPage cfg := by
+  simp only [resumeReset, Page.reset, freshPage, hsep]
+  cases hs : s.pg.sizer with
+  | none =>
+    rw [hs] at hsz
+    by_cases hc : cfg.outputSize > 0
+    · simp [freshPage, hc] at hsz
+    · simp [hc]
+  | some sz =>
+    rw [hs] at hsz
+    by_cases hc : cfg.outputSize > 0
+    · simp [freshPage, hc] at hsz
+      simp [hc, Sizer.reset, hsz]
+    · simp [freshPage, hc] at hsz
 
-/-- what a resume does NOT clear (a difference to a fresh engine that shows only when the
-resumed code renders without moving first): the menu's browse configuration and page count -/
-theorem menu_reset_keeps_browse (m : Menu) :
-    m.reset.browse = m.browse ∧ m.reset.pageCount = m.pageCount ∧ m.reset.keep = m.keep := by
-  simp [Menu.reset, Menu.rearm]
+/-- the resume touches nothing but the renderer -/
+theorem resume_keeps_state (s : VmSt) :
+    (resumeReset s).st = s.st ∧ (resumeReset s).ca = s.ca ∧ (resumeReset s).sep = s.sep := by
+  simp [resumeReset]
+
+/-- non-vacuity: a renderer with two pages on offer, cursors and a sink symbol meets the hypotheses -/
+def usedPage : Page :=
+  { menu := { (Menu.new [0x3a]) with pageCount := 2, canNext := true },
+    sizer := some { outputSize := 40, crsrs := [3, 9], sink := [0x62] } }
+
+example (st : St) (ca : Cache Bytes) :
+    (resumeReset { st := st, ca := ca, pg := usedPage }).pg = freshPage { outputSize := 40 } :=
+  resume_page_fresh _ { outputSize := 40 } (by simp) (by simp [usedPage, freshPage])
 
 /-! ### negation witnesses for the simulation (known finding C07-after-failed-request) -/
 
